@@ -1,7 +1,8 @@
 (* C11: the length / header arithmetic of the ZNG reader, in an outcome monad
    where [Panic] marks every Go slice bound / index that would be out of
-   range.  Mirrors, as they are:
-     zio/zngio/reader.go   readUvarintAsInt            (int(u64) wraps negative)
+   range.  Mirrors /repo HEAD:
+     zio/zngio/reader.go   readUvarintAsInt  (rejects values > MaxInt since
+                           commit 729907a2c; before it int(u64) wrapped negative)
      zio/zngio/parser.go   read, decodeLength, readFrame, readCompressedFrame,
                            decodeTypes, decodeValues, decodeControl
      pkg/peeker/reader.go  Peek / Read on an in-memory input
@@ -15,8 +16,9 @@
      mapper.go             MapperLookupCache.Lookup (indexes cache[id])
      zio/zngio/sync.go     scannerSync.Pull;  reader.go Reader.Read
    LZ4 is an external library: a Section variable.
-   [checked] selects the proposed repair of readUvarintAsInt (reject values
-   that do not fit a non-negative int); [checked = false] is the code as it is. *)
+   [checked = true] is the code as it is ([zng_parse]).  [checked = false] is
+   readUvarintAsInt WITHOUT its range check, kept only to state that this
+   check is what the no-panic theorem rests on (Props: C11_uvarint_guard_necessary). *)
 From ZV Require Import Base.Prelude.
 Local Open Scope Z_scope.
 
@@ -84,8 +86,8 @@ Section Model.
   Variable checked : bool.
   Variable max : Z.      (* ReaderOpts.Max = parser.maxSize = peeker limit *)
 
-  (* readUvarintAsInt.  With [checked] a value that does not fit a
-     non-negative int is refused (the proposed repair). *)
+  (* readUvarintAsInt: a value that does not fit a non-negative int is
+     refused with errBadFormat ([checked]; without the check it wraps). *)
   Inductive ires := IOk (v : Z) (rest : bytes) | IEOF | IUnexpected | IOverflow | IRange.
   Definition read_int (b : bytes) : ires :=
     match read_uvarint b with
@@ -367,3 +369,6 @@ Section Model.
 
 End Model.
 
+(* The reader of /repo HEAD. *)
+Definition zng_parse (lz4 : bytes -> Z -> option bytes) (max : Z) (b : bytes) : verdict :=
+  parse lz4 true max b.
